@@ -233,6 +233,25 @@ def mergeAdjacent : List Part → Part → List Part → E (List Part)
         | [] => throw "assertion"
     else mergeAdjacent (part :: mergedRev) part rest
 
+/-- the tail of `offset_location`: reduce the shifted parts modulo the wrap point, splitting at the
+    origin where needed, check them, and merge parts that became adjacent -/
+def wrapParts (parts : List Part) (wrap : Int) : E Loc :=
+  let newParts := parts.flatMap fun p =>
+    let s := p.lo % wrap
+    let e := (p.hi - 1) % wrap + 1
+    if 0 ≤ s && s < e && e ≤ wrap then [(⟨s, e, p.strand⟩ : Part)]
+    else [⟨s, wrap, p.strand⟩, ⟨0, e, p.strand⟩]
+  if !(newParts.all fun p => 0 ≤ p.lo && p.lo < p.hi && p.hi ≤ wrap) then throw "assertion"
+  else match newParts with
+    | [] => throw "assertion"
+    | first :: rest => do
+      let merged ← mergeAdjacent [first] first rest
+      pure (Loc.ofParts merged)
+
+/-- the "no wrapping required" test: `0 < start + offset < end + offset < wrap_point` -/
+def offsetTrivial (l : Loc) (offset wrap : Int) : Bool :=
+  decide (0 < l.start + offset) && decide (l.start + offset < l.end + offset) && decide (l.end + offset < wrap)
+
 /-- `offset_location(location, offset, wrap_point=wrap)`; `wrap = 0` stands for None/0 -/
 def offsetLocation (l : Loc) (offset : Int) (wrap : Int := 0) : E Loc := do
   if wrap = 0 || offset = 0 then
@@ -241,21 +260,11 @@ def offsetLocation (l : Loc) (offset : Int) (wrap : Int := 0) : E Loc := do
   else
     if wrap < 1 then throw "value-error"
     if l.len = wrap then pure l
-    else if 0 < l.start + offset && l.start + offset < l.end + offset && l.end + offset < wrap then
+    else if offsetTrivial l offset wrap then
       pure (rebuild l (← shiftedParts l offset true))
     else
       let parts ← shiftedParts l offset true
-      let newParts := parts.flatMap fun p =>
-        let s := p.lo % wrap
-        let e := (p.hi - 1) % wrap + 1
-        if 0 ≤ s && s < e && e ≤ wrap then [(⟨s, e, p.strand⟩ : Part)]
-        else [⟨s, wrap, p.strand⟩, ⟨0, e, p.strand⟩]
-      if !(newParts.all fun p => 0 ≤ p.lo && p.lo < p.hi && p.hi ≤ wrap) then throw "assertion"
-      match newParts with
-      | [] => throw "assertion"
-      | first :: rest =>
-        let merged ← mergeAdjacent [first] first rest
-        pure (Loc.ofParts merged)
+      wrapParts parts wrap
 
 /-! ### `Record.extend_location` -/
 
